@@ -157,14 +157,20 @@ func (rw StateRW) WriteState(w http.ResponseWriter, state authboss.ClientState, 
 func ShiftJarTimes(j *Jar, d time.Duration) {
 	j.mu.Lock()
 	defer j.mu.Unlock()
-	if v, ok := j.Session[authboss.SessionLastAction]; ok {
+	// every instant the session holds ages, whichever key it is kept under and in whichever of the
+	// usual spellings (RFC 3339 with or without fractions, unix seconds): the library - or a changed
+	// library - may stamp values the harness has no list of
+	for k, v := range j.Session {
 		if t, err := time.Parse(time.RFC3339, v); err == nil {
-			j.Session[authboss.SessionLastAction] = t.Add(-d).UTC().Format(time.RFC3339)
+			j.Session[k] = t.Add(-d).UTC().Format(time.RFC3339)
+			continue
 		}
-	}
-	if v, ok := j.Session["sms_last"]; ok {
-		if n, err := strconv.ParseInt(v, 10, 64); err == nil {
-			j.Session["sms_last"] = strconv.FormatInt(n-int64(d/time.Second), 10)
+		if t, err := time.Parse(time.RFC3339Nano, v); err == nil {
+			j.Session[k] = t.Add(-d).UTC().Format(time.RFC3339Nano)
+			continue
+		}
+		if n, err := strconv.ParseInt(v, 10, 64); err == nil && (k == "sms_last" || (n > 1_000_000_000 && n < 4_000_000_000)) {
+			j.Session[k] = strconv.FormatInt(n-int64(d/time.Second), 10)
 		}
 	}
 }
